@@ -17,10 +17,15 @@ match a newline); they are validated against Go's `regexp` by the `naming` corre
 Where the Go code takes "just some" key of the summary map (`justSomeId`, `getFirstKey`) the
 function here takes THE KEY THAT MAP ITERATION YIELDED as an explicit argument.
 
-Two variants exist where the code was repaired (DESIGN.md section 6, D6-D8):
-  * `Variant.current` : the code as found  (`… As-Is` key for solution sets; label = FIRST `\d+/\d+` match)
-  * `Variant.fixed`   : the repaired code   (`… Solution (As-Is)` key;        label = LAST  `\d+/\d+` match)
-`Summary.Id`, `Summary.FileNameSafeId` and `deriveSetNameFor` are the same functions in both.
+Three variants exist where the code was repaired (DESIGN.md section 6, D6-D8; round 3):
+  * `Variant.current`  : the code as found  (`… As-Is` key for solution sets; label = FIRST `\d+/\d+` match)
+  * `Variant.fixed`    : D6-D8 repaired     (`… Solution (As-Is)` key;        label = LAST  `\d+/\d+` match);
+                         label, `Summary.Id` and `Summary.FileNameSafeId` still search the WHOLE id, scenario name
+                         included: a name holding `As-Is`, `(1/1)` or `Solution (` breaks them
+  * `Variant.anchored` : round-3 repairs    (label, `Summary.Id`, `Summary.FileNameSafeId` are computed from the id
+                         cut at the LAST ` Solution (`, i.e. from the ending the Saver itself appended)
+`Summary.Id` / `Summary.FileNameSafeId` are the same functions in `current` and `fixed` (`setIdOfKey`,
+`fileSafeIdOfKey`); `anchored` has `setIdOfKeyA`, `fileSafeIdOfKeyA`.  `deriveSetNameFor` is the same in all three.
 -/
 namespace Crem.Naming
 
@@ -66,6 +71,20 @@ def contains (pat : Str) : Str → Bool
   | [] => isPrefix pat []
   | c :: cs => isPrefix pat (c :: cs) || contains pat cs
 
+/-- the part of a string before the LAST occurrence of `pat`: `s[:strings.LastIndex(s, pat)]`, `none` = no occurrence -/
+def beforeLast (pat : Str) : Str → Option Str
+  | [] => if pat.isEmpty then some [] else none
+  | c :: t =>
+    match beforeLast pat t with
+    | some r => some (c :: r)
+    | none => if isPrefix pat (c :: t) then some [] else none
+
+/-- `s[strings.LastIndex(s, pat):]`, the whole string when `pat` does not occur -/
+def fromLast (pat s : Str) : Str :=
+  match beforeLast pat s with
+  | some a => s.drop a.length
+  | none => s
+
 /-! ## ids -/
 
 /-- `Runner.generateCloneId`: the id of run `r` of `R` -/
@@ -73,7 +92,7 @@ def runId (name : Str) (r R : Nat) : Str :=
   if R > 1 then name ++ [' ', '('] ++ natStr r ++ ['/'] ++ natStr R ++ [')'] else name
 
 inductive Variant where
-  | current | fixed
+  | current | fixed | anchored
   deriving DecidableEq, Repr
 
 /-- single-objective (Kirkpatrick: one optimised solution) or multi-objective (Suppapitnarm: a solution set) -/
@@ -88,6 +107,7 @@ def asIsKey (v : Variant) (f : Family) (rid : Str) : Str :=
   | .single, _ => rid ++ sSolAsIs
   | .multi, .current => rid ++ sSpAsIs
   | .multi, .fixed => rid ++ sSolAsIs
+  | .multi, .anchored => rid ++ sSolAsIs
 
 /-- `deriveSolutionId`: `"%s Solution (%d/%d)"` -/
 def memberKey (rid : Str) (k n : Nat) : Str :=
@@ -144,9 +164,14 @@ def labelCurrent : Str → Str := labelOf (fun ms => ms.head?.getD [])
 /-- repaired: the LAST match (`""` if none) -/
 def labelFixed : Str → Str := labelOf (fun ms => ms.getLast?.getD [])
 
+/-- round-3 repair: the same derivation applied to the id's own ending only, `id[LastIndex(id, " Solution ("):]`
+(the whole id when it has no such infix) -/
+def labelAnchored (id : Str) : Str := labelFixed (fromLast sSolOpen id)
+
 def label : Variant → Str → Str
   | .current => labelCurrent
   | .fixed => labelFixed
+  | .anchored => labelAnchored
 
 /-! ## `Summary.Id`, `Summary.FileNameSafeId`, JSON set name -/
 
@@ -206,16 +231,28 @@ def stripSpaces (s : Str) : Str := s.filter (fun c => c != ' ')
 def fileSafeIdOfKey (key : Str) : Str :=
   slashToUOf (replaceAllLines patSolOpen [] (stripSpaces key))
 
+/-- round-3 repair, `runIdOf`: what precedes the LAST ` Solution (` of a solution id -/
+def runPartOfKey (key : Str) : Option Str := beforeLast sSolOpen key
+
+/-- repaired `set.Summary.Id()` when `justSomeId` yielded `key`: `<run part> Summary`, the key itself without the infix -/
+def setIdOfKeyA (key : Str) : Str :=
+  match runPartOfKey key with
+  | some a => a ++ ' ' :: sSummary
+  | none => key
+
+/-- repaired `set.Summary.FileNameSafeId()`: the run part, blanks removed, `/` -> `_of_` -/
+def fileSafeIdOfKeyA (key : Str) : Str := slashToUOf (stripSpaces ((runPartOfKey key).getD key))
+
+def setIdV : Variant → Str → Str
+  | .anchored => setIdOfKeyA
+  | _ => setIdOfKey
+
+def fileSafeIdV : Variant → Str → Str
+  | .anchored => fileSafeIdOfKeyA
+  | _ => fileSafeIdOfKey
+
 /-- `solution.Solution.FileNameSafeId()` (names of the detail files) -/
 def solutionFileSafeId (id : Str) : Str := slashToUOf (stripSpaces id)
-
-/-- the part of a line before the LAST occurrence of `pat` -/
-def beforeLast (pat : Str) : Str → Option Str
-  | [] => if pat.isEmpty then some [] else none
-  | c :: t =>
-    match beforeLast pat t with
-    | some r => some (c :: r)
-    | none => if isPrefix pat (c :: t) then some [] else none
 
 /-- json `deriveSetNameFor` when `getFirstKey` yielded `key`:
 `regexp.MustCompile("(.*) Solution.*").FindStringSubmatch(key)[1]`; `none` = the index panic on a
@@ -236,6 +273,10 @@ def ext : OutputType → Str
 def summaryFileName (ot : OutputType) (key : Str) : Str :=
   fileSafeIdOfKey key ++ sDashSummary ++ ext ot
 
+/-- the same for a variant -/
+def summaryFileNameV (v : Variant) (ot : OutputType) (key : Str) : Str :=
+  fileSafeIdV v key ++ sDashSummary ++ ext ot
+
 /-- the intended names, as a function of (scenario name, run number, number of runs, output type) -/
 def runFileStem (name : Str) (r R : Nat) : Str :=
   if R > 1 then stripSpaces name ++ ['('] ++ natStr r ++ sUOf ++ natStr R ++ [')'] else stripSpaces name
@@ -244,6 +285,15 @@ def intendedFileName (ot : OutputType) (name : Str) (r R : Nat) : Str :=
   runFileStem name r R ++ sDashSummary ++ ext ot
 
 def intendedSetId (name : Str) (r R : Nat) : Str := runId name r R ++ ' ' :: sSummary
+
+/-- the intended file stem for ANY scenario name (a `/` of the name becomes `_of_` like the run's own);
+equal to `runFileStem` when the name has no `/` -/
+def runFileStemA (name : Str) (r R : Nat) : Str :=
+  if R > 1 then slashToUOf (stripSpaces name) ++ ['('] ++ natStr r ++ sUOf ++ natStr R ++ [')']
+  else slashToUOf (stripSpaces name)
+
+def intendedFileNameA (ot : OutputType) (name : Str) (r R : Nat) : Str :=
+  runFileStemA name r R ++ sDashSummary ++ ext ot
 
 /-- names of the detail files of one solution (`OutputLevel = Detail`) -/
 def detailFileNames (ot : OutputType) (id : Str) : List Str :=
